@@ -25,16 +25,17 @@ TECHNIQUE = ("Lean 4 proof over a model regenerated from the source on every run
              "over API histories (simulation with a specification that uses a fresh transformer per call), induction over block "
              "programs / scope-guard programs with exceptions -- plus a correspondence run: random API histories with aborting "
              "transformations on one real XalanTransformer against a newly created one, hook values, memory probe, ASan pass")
-LEVEL_TEXT = ("Machine-checked (20 theorems, axioms propext/Classical.choice/Quot.sound): for every member state in which a "
+LEVEL_TEXT = ("Machine-checked (22 theorems, axioms propext/Classical.choice/Quot.sound): for every member state in which a "
               "transformation can stop, ~EnsureReset restores every member classified transient (reset_restores_partial; hypothesis "
               "MidOk discharged by reset_after_any_abort from the C01 walker statement WalkerPairing), the next transformation starts "
               "from a fresh transformer's state (start_state_independent_partial), sticky/config/const members are never written "
               "(sticky_untouched), members restored by scope guards are restored on every exit and stay fresh over all histories "
-              "(scope_guard_restores, guard_sites_all_guarded, guarded_members_stay_fresh), and by induction over all finite API "
+              "(scope_guard_restores, guard_sites_all_guarded, guarded_members_stay_fresh), pooled objects are re-initialised in every data "
+              "member and long-lived caches are keyed on every input (pooled_objects_reinitialised, cache_keys_complete), and by induction over all finite API "
               "histories every reply equals that of a specification using a new transformer per call (history_independent_partial); "
               "parameters are sticky and last-write-wins (params_sticky, params_follow_spec). All tables are regenerated from /repo "
-              "each run; a dropped reset statement, an unguarded mutation site, a conditionally set collator attribute, a new "
-              "unclassified member each break a named theorem. Random histories on the real library validate the abstraction and "
+              "each run; a dropped reset statement, an unguarded mutation site, a conditionally set collator attribute, a pooled-object member "
+              "no re-initialiser assigns, a cache-key member missing from operator=/==, a new unclassified member each break a named theorem. Random histories on the real library validate the abstraction and "
               "supply replays.")
 LEVEL_NOTE = ("Trusted: Lean kernel; translate/c06_reset.py (clang-14 AST for members, regex over comment-stripped #if-resolved "
               "bodies; unrecognised statements are errors); gen/c06_members.json (role of each of the 121 members with code location). "
@@ -44,7 +45,7 @@ LEVEL_NOTE = ("Trusted: Lean kernel; translate/c06_reset.py (clang-14 AST for me
               "GuardedCode (C++ block with a CollectionClearGuard = Prog.scope; the translator checks guard-before-first-mutation "
               "syntactically); that the interpreter writes only members of volatile roles; the three `cache` members are covered by "
               "syntactic obligations (scratchSites, statefulCacheSites), not by a semantic proof. The XSLT interpreter's output is not "
-              "modelled: equality with a fresh transformer is established by the correspondence run only (quick ~900 transformations, "
+              "modelled: equality with a fresh transformer is established by the correspondence run only (quick ~1000 transformations, "
               "thorough ~97000 + ASan), bounded by generator coverage; hook values and the memory probe check what status/output cannot show.")
 DESIGN_REF = "DESIGN.md section 5, C06; design/C06.md"
 
@@ -54,6 +55,8 @@ THEOREMS = [
     "XalanModel.Props.C06.start_state_independent_partial",
     "XalanModel.Props.C06.sticky_untouched",
     "XalanModel.Props.C06.guard_sites_all_guarded",
+    "XalanModel.Props.C06.pooled_objects_reinitialised",
+    "XalanModel.Props.C06.cache_keys_complete",
     "XalanModel.Props.C06.scope_guard_restores",
     "XalanModel.Props.C06.guarded_members_stay_fresh",
     "XalanModel.Props.C06.reset_restores_objstack_counterexample",
